@@ -381,6 +381,20 @@ def hostile_sources(ctx, L):
         add("nested-if", ".if 1\n" * d + ".db 1\n" + ".endif\n" * d)
         add("nested-ifdef", ".define X 1\n" + ".ifdef X\n" * d + ".db 1\n" + ".endif\n" * d)
         add("nested-if0", ".if 0\n" * d + ".endif\n" * d)
+    # conditionals nested through EVERY entry path of the recursion: the taken branch (above), the `.else` part of a
+    # false .if / .ifdef / .ifndef (the second call site of assemble_branch()), mixtures, and the same from inside an
+    # include file and a .repeat block
+    for d in (F - 1, F, F + 1, 5000, 50000):
+        add("nested-else", ".if 0\n.else\n" * d + ".db 1\n" + ".endif\n" * d)
+        add("nested-ifdef-else", ".ifdef NOT_DEFINED_ANYWHERE\n.else\n" * d + ".db 1\n" + ".endif\n" * d)
+        add("nested-ifndef-else", ".define X 1\n" + ".ifndef X\n.else\n" * d + ".db 1\n" + ".endif\n" * d)
+        mix = [".if 1\n", ".if 0\n.else\n", ".ifndef NOT_DEFINED_ANYWHERE\n", ".ifdef NOT_DEFINED_ANYWHERE\n.db 3\n.else\n"]
+        add("nested-mixed", "".join(mix[i % 4] for i in range(d)) + ".db 1\n" + ".endif\n" * d)
+        add("nested-else-skipped-inside", ".if 0\n.if 1\n.else\n.endif\n.else\n" * d + ".db 1\n" + ".endif\n" * d)
+        add("nested-else-in-include", '.include "deep.inc"\n.db 2\n',
+            files={"deep.inc": ".if 0\n.else\n" * d + ".db 1\n" + ".endif\n" * d})
+        add("nested-else-in-repeat", ".repeat 2\n" + ".if 0\n.else\n" * d + ".db 1\n" + ".endif\n" * d + ".endr\n")
+        add("nested-else-unclosed", ".if 0\n.else\n" * d + ".db 1\n")
     for d in (X - 2, X - 1, X, X + 1, 200000):
         add("deep-parens", ".db " + "(" * d + "1" + ")" * d + "\n")
         add("deep-unary", ".db " + "-" * d + "1\n")
@@ -426,4 +440,105 @@ def hostile_sources(ctx, L):
     for _ in range(ctx.scale(12, 120)):
         add("random-bytes", bytes(rng.randrange(256) for _ in range(rng.choice([10, 1000, 50000]))))
         add("random-text", "".join(rng.choice('abc .,:;()"\'#$%01\n\n\n\t+-*/<>=!&|\\[]{}') for _ in range(rng.choice([10, 1000, 50000]))))
+    return out
+
+
+# ---------------------------------------------------------------------------
+# nesting of assemble(): event sequences for the `nest` correspondence (model Reader/Nest.lean <-> NV_TRACE depth)
+# ---------------------------------------------------------------------------
+# letters: T t U taken conditional (.if 1 / .ifndef NN / .ifdef DX); E e f false conditional entered through .else
+# (.if 0 / .ifdef NN / .ifndef DX); S false conditional without .else (contains a conditional of its own); C .endif;
+# c .else + skipped rest + .endif (only closes a TAKEN conditional); I i include file; R r .repeat 1 / .endr; O .db;
+# M m: the statements between them become the body of a macro that is invoked at this point (rendering only).
+
+NEST_OPEN = {"T": [".if 1"], "t": [".ifndef NN"], "U": [".ifdef DX"], "E": [".if 0", ".else"], "e": [".ifdef NN", ".db 9", ".else"],
+             "f": [".ifndef DX", ".else"]}
+
+
+def render_nest(events):
+    """-> (source text, {file name: text})"""
+    files, stack, names, kinds = {}, [[".msp430", ".define DX 1"]], [], []
+    nfile = nmac = 0
+    for ch in events:
+        cur = stack[-1]
+        if ch in NEST_OPEN: cur += NEST_OPEN[ch]
+        elif ch == "S": cur += [".if 0", ".db 9", ".if 1", ".else", ".endif", ".endif"]
+        elif ch == "C": cur.append(".endif")
+        elif ch == "c": cur += [".else", ".db 7", ".ifdef NN", ".endif", ".endif"]
+        elif ch == "O": cur.append(".db 1")
+        elif ch == "R": cur.append(".repeat 1")
+        elif ch == "r": cur.append(".endr")
+        elif ch == "I":
+            names.append("n%d.inc" % nfile); nfile += 1; kinds.append("I")
+            cur.append('.include "%s"' % names[-1]); stack.append([])
+        elif ch == "M":
+            names.append("NM%d" % nmac); nmac += 1; kinds.append("M")
+            stack.append([])
+        elif ch in "im" and kinds:
+            body, name, k = stack.pop(), names.pop(), kinds.pop()
+            if k == "I":
+                files[name] = "\n".join(body) + "\n"
+            else:
+                stack[-1] += [".macro " + name] + body + [".endm", name]
+    while kinds:        # a sequence that stops at an error may leave files open
+        body, name, k = stack.pop(), names.pop(), kinds.pop()
+        if k == "I":
+            files[name] = "\n".join(body) + "\n"
+        else:
+            stack[-1] += [".macro " + name] + body + [".endm", name]
+    return "\n".join(stack[0]) + "\n", files
+
+
+def nest_sequences(ctx, L):
+    """[(class, events)]: every entry path at MAX-1, MAX, MAX+1, through include / .repeat / macro, and seeded walks"""
+    rng = ctx.rng
+    F, I = L["maxNestedIfs"], L["includeDepthMax"]
+    out = []
+    for d in (1, 2, F - 1, F, F + 1, F + 40):
+        for k in "TtUEef":
+            out.append(("pure-" + k, k * d + "O" + "C" * d))
+        out.append(("mixed", "".join("TEtefU"[i % 6] for i in range(d)) + "O" + "C" * d))
+        out.append(("mixed2", "".join("ETfS"[i % 4] for i in range(d + d // 3)) + "O" + "C" * d))
+        out.append(("taken-closed-by-else", "T" * d + "O" + "c" * d))
+        out.append(("else-then-taken", "E" * (d // 2) + "T" * (d - d // 2) + "O" + "C" * d))
+        out.append(("skipped-at-depth", "E" * (d - 1) + "S" + "O" + "C" * (d - 1)))
+        out.append(("sibling-after-close", "E" * (d - 1) + "ECOEC" + "O" + "C" * (d - 1)))
+        a = d // 2
+        out.append(("include", "E" * a + "I" + "e" * (d - a) + "O" + "C" * (d - a) + "i" + "C" * a))
+        out.append(("include-taken", "T" * a + "I" + "T" * (d - a) + "O" + "C" * (d - a) + "i" + "C" * a))
+        out.append(("repeat", "R" + "E" * d + "O" + "C" * d + "r"))
+        out.append(("repeat-inside", "f" * a + "R" + "E" * (d - a) + "O" + "C" * (d - a) + "r" + "C" * a))
+        m = min(30, d)
+        out.append(("macro", "E" * (d - m) + "M" + "E" * m + "O" + "C" * m + "m" + "C" * (d - m)))
+        out.append(("macro-taken", "t" * (d - m) + "M" + "T" * m + "O" + "C" * m + "m" + "C" * (d - m)))
+    for d in (I - 1, I, I + 1):
+        out.append(("include-depth", "I" * d + "O" + "i" * d))
+        out.append(("include-depth-if", "EI" * d + "O" + "iC" * d))
+    out.append(("repeat-in-repeat", "RORr"))
+    out.append(("repeat-in-include-in-repeat", "RIROri" + "r"))
+    for _ in range(ctx.scale(40, 400)):
+        n = rng.choice([10, 40, 150, 320])
+        ev, open_ = [], []          # open_: stack of closers
+        rep = False
+        bias = rng.choice([0.55, 0.7, 0.9])
+        for _ in range(n):
+            r = rng.random()
+            if r < bias * 0.8:
+                k = rng.choice("TtUEefEEE")
+                ev.append(k); open_.append("Cc" if k in "TtU" else "C")
+            elif r < bias * 0.85 and sum(1 for o in open_ if o == "i") < I - 1:
+                ev.append("I"); open_.append("i")
+            elif r < bias * 0.88 and not rep:
+                ev.append("R"); open_.append("r"); rep = True
+            elif r < bias:
+                ev.append(rng.choice("SO"))
+            elif open_:
+                c = open_.pop()
+                if c == "r": rep = False
+                ev.append(rng.choice(c))
+            else:
+                ev.append("O")
+        while open_:
+            ev.append(rng.choice(open_.pop()))
+        out.append(("walk", "".join(ev)))
     return out
